@@ -108,6 +108,14 @@ def reset_falcon_caches():
                     cc()
                 except Exception:
                     pass
+    m = mods.get('falcon.asgi.request')
+    if m is not None:
+        try:
+            for d in m.Request.get_header.__defaults__ or ():
+                if isinstance(d, dict):
+                    d.clear()
+        except Exception:
+            pass
 
 
 def run_case(mod, seed=None, replay=None, prefix=None, tier='quick', keep_labels=False):
